@@ -268,8 +268,13 @@ def guard_bypass(ctx, prog):
     gb(ctx, prog, "C04.GUARD-bypass")
 
 
+def data_swap(ctx, prog):
+    from .c11 import data_swap as ds
+    ds(ctx, prog, "C04.DATA-swap")
+
+
 for _f, _id in ((weak_core, "C04.WEAK"), (weak_map, "C04.WEAK-map"), (rcb, "C04.RCB-alias"), (cfgd, "C04.CFGD"),
-                (guard_bypass, "C04.GUARD-bypass"), (rcb_user, "C04.RCB-user")):
+                (guard_bypass, "C04.GUARD-bypass"), (rcb_user, "C04.RCB-user"), (data_swap, "C04.DATA-swap")):
     _f.rule_id = _id
 
-RULES = [weak_core, weak_map, rcb, cfgd, guard_bypass, rcb_user]
+RULES = [weak_core, weak_map, rcb, cfgd, guard_bypass, rcb_user, data_swap]
